@@ -7,6 +7,7 @@ import (
 	"go/token"
 	"go/types"
 	"math/big"
+	"os"
 	"strings"
 
 	"golang.org/x/tools/go/ssa"
@@ -452,6 +453,9 @@ func (fr *Frame) cutLoop(st *State, n node, l *loop) *State {
 	}
 	// havoc heaps written in the loop
 	mods := r.eng.modsetBlocks(l.body, fr.spec)
+	if os.Getenv("GOCV_DEBUG") != "" {
+		fmt.Fprintf(os.Stderr, "[loop-havoc] %s loop %d: %v\n", fr.fn.Name(), l.ordinal, sortedKeys(mods))
+	}
 	nf := r.declare("frontier", SInt)
 	r.assumeGlobal(app(">=", nf, hs.frontier))
 	hs.frontier = nf
@@ -655,8 +659,12 @@ func (fr *Frame) execInstr(st *State, in ssa.Instruction) {
 				delete(st.vars, obj.Name())
 			}
 		} else {
-			fr.setVar(st, obj.Name(), v)
-			delete(st.vars, "&"+obj.Name())
+			if _, inMemory := st.vars["&"+obj.Name()]; inMemory {
+				// the variable lives in a memory cell (captured or address-taken): the value reported here is only the
+				// one being assigned; reads go through the cell
+			} else {
+				fr.setVar(st, obj.Name(), v)
+			}
 		}
 		if id, ok := x.Expr.(*ast.Ident); ok && id.Pos() == obj.Pos() {
 			fr.siteGeneric(st, "def", obj.Name(), nil)
